@@ -9,6 +9,7 @@ from collections import deque
 from typing import TYPE_CHECKING
 from typing import Deque
 from typing import Iterable
+from typing import Iterator
 from typing import Tuple
 
 from .exceptions import JSONPathRecursionError
@@ -85,16 +86,25 @@ class JSONPathRecursiveDescentSegment(JSONPathSegment):
 
         yield node
 
-        if isinstance(node.value, dict):
-            for name, val in node.value.items():
-                if isinstance(val, (dict, list)):
-                    _node = node.new_child(val, name)
-                    yield from self._visit(_node, depth + 1)
-        elif isinstance(node.value, list):
-            for i, element in enumerate(node.value):
-                if isinstance(element, (dict, list)):
-                    _node = node.new_child(element, i)
-                    yield from self._visit(_node, depth + 1)
+        # An explicit stack of (child iterator, depth of those children) pairs,
+        # so max_recursion_depth is not limited by the interpreter's own stack.
+        stack = [(_container_children(node), depth + 1)]
+
+        while stack:
+            children, depth = stack[-1]
+            _node = next(children, None)
+
+            if _node is None:
+                stack.pop()
+                continue
+
+            if depth > self.env.max_recursion_depth:
+                raise JSONPathRecursionError(
+                    "recursion limit exceeded", token=self.token
+                )
+
+            yield _node
+            stack.append((_container_children(_node), depth + 1))
 
     def _nondeterministic_visit(
         self,
@@ -164,6 +174,18 @@ class JSONPathRecursiveDescentSegment(JSONPathSegment):
 
     def __hash__(self) -> int:
         return hash(("..", self.selectors, self.token))
+
+
+def _container_children(node: JSONPathNode) -> Iterator[JSONPathNode]:
+    """Yield the children of _node_ that are arrays or objects, in document order."""
+    if isinstance(node.value, dict):
+        for name, val in node.value.items():
+            if isinstance(val, (dict, list)):
+                yield node.new_child(val, name)
+    elif isinstance(node.value, list):
+        for i, element in enumerate(node.value):
+            if isinstance(element, (dict, list)):
+                yield node.new_child(element, i)
 
 
 def _nondeterministic_children(node: JSONPathNode) -> Iterable[JSONPathNode]:
